@@ -2,7 +2,7 @@
 from fractions import Fraction
 
 from symx import (sym_num, sym_int, sym_real, choice, check, obs, cover, eq, ge, le, lt, gt, fail, And, Or, Not, ssum)
-from props.netcommon import snapshot, check_unchanged, FIELDS
+from props.netcommon import snapshot, check_unchanged, FIELDS, mk_packet
 
 PROPERTY = 'C08'
 INF = float('inf')
@@ -280,15 +280,51 @@ def h_pipe(cfg):
     obs('sunk', [(p.packet_id, p.flow_id, now) for (p, now, _) in L_sink.log])
 
 
-HARNESSES = {'pipe': h_pipe}
+def h_sinkburst(cfg):
+    """a PacketSink (with and without its debug flag - a parameter like any other) receiving a dozen packets of one flow,
+    many of them in one instant: the run does not raise and the counts are those of the packets delivered"""
+    import io
+    import contextlib
+    from onl.sim import Environment
+    from onl.packet import Packet, PacketSink
+    env = Environment()
+    sink = PacketSink(env, debug=cfg['debug'])
+    n = cfg['n']
+    sizes = []
+
+    def source():
+        for k in range(n):
+            if k in cfg['gaps']:
+                yield env.timeout(sym_num('g%d' % k, 'int', 0))
+            # (debug mode formats byte totals with float(): sizes concrete there, instants symbolic in both modes)
+            size = (1 + k % 3) if cfg['debug'] else sym_int('s%d' % k, 1, 3)
+            sizes.append(size)
+            sink.put(mk_packet(Packet, env.now, size, k, flow_id=4))
+
+    env.process(source())
+    try:
+        with contextlib.redirect_stdout(io.StringIO()):
+            env.run()
+    except Exception as ex:  # noqa
+        fail('no-raise', '%s: %s' % (type(ex).__name__, ex))
+        return
+    check('c08.sink-count', sink.packets_received[4] == n, sink.packets_received[4])
+    check('c08.sink-bytes', eq(sink.bytes_received[4], ssum(sizes)))
+    cover('sink-burst')
+    cover('nontrivial')
+
+
+HARNESSES = {'pipe': h_pipe, 'sinkburst': h_sinkburst}
 
 
 def VIOL_KEY(cfg):
-    return '%s/%s%s%s' % (cfg['pipe'], cfg.get('kind', ''), cfg.get('server', ''), '/classmap' if cfg.get('classmap') else '')
+    return '%s/%s%s%s' % (cfg.get('pipe', 'sinkburst'), cfg.get('kind', ''), cfg.get('server', ''), '/classmap' if cfg.get('classmap') else '')
 
 
 def jobs(tier, seed):
     js = []
+    for dbg in (False, True):
+        js.append({'harness': 'sinkburst', 'cfg': {'n': 12, 'gaps': [0, 11], 'debug': dbg}, 'weight': 5})
     n = 2
     big = 2 if tier == 'quick' else 3      # only the cheap pipelines get the longer workload in the thorough tier
     modes = [[True, True, True, True], [True, False, True, False], [False, True, True, True], [True, True, False, False]]
@@ -340,7 +376,7 @@ META = {
                         'c08.sched.per-flow-order', 'c08.demux.only-unroutable-discarded', 'c08.switch.nothing-lost',
                         'c08.tb.nothing-lost', 'c08.trtb.nothing-lost', 'c08.end-to-end.field-unchanged', 'c08.gen-instant',
                         'c08.gen-size', 'c08.sink-count', 'c08.sink-bytes', 'c08.sink-arrival', 'c08.sink-wait'],
-    'required_covers': ['nontrivial', 'discarded'],
+    'required_covers': ['nontrivial', 'discarded', 'sink-burst'],
     'bounds': {'quick': 'pipelines gen->port->wire->sink, {gen,gen}->scheduler(6 kinds)->port->sink, gens->FlowDemux->{port,port}->sink, '
                         'gens->Simple/FairPacketSwitch(SP,WFQ,DRR,VC)->sink, gen->TokenBucket->SP->sink, gen->TwoRateTokenBucket->wire->sink; '
                         '2 (+1) packets per main generator; all generator gaps/sizes, wire delays, loss draws symbolic; PacketSink in 4 recording modes',
